@@ -483,7 +483,7 @@ def build_unit(spec_path, repo, contracts_dir, shim_table, force_extern=None, va
         elif fs.opts.get('staticfn'):
             # static-to-fn: the initialiser block of `[pub] static ref NAME: TYPE = { BLOCK };` (inside lazy_static!)
             # becomes  fn NAME_init() -> TYPE { BLOCK }  (the block is verbatim; the header is the only woven text)
-            mm = re.search(r'\bstatic\s+ref\s+%s\s*:\s*([^=;{]+?)\s*=\s*\{' % re.escape(fs.src_name), s.mask)
+            mm = re.search(r'\bstatic\s+ref\s+%s\s*:\s*([^=\n{]+?)\s*=\s*\{' % re.escape(fs.src_name), s.mask)
             if not mm:
                 raise WeaveError('lost anchor: static ref %s not found in %s' % (fs.src_name, rel))
             ob = mm.end() - 1
